@@ -147,9 +147,11 @@ class Repo:
                 tree = ast.parse(src, filename=str(path))
             except SyntaxError as e:  # the tree under analysis must parse
                 raise Unsupported(f'{rel}: does not parse: {e}') from e
-            from .inline import expand_keyword_dicts, inline_local_procedures, inline_unknown_functions, inline_unknown_nested, inline_return_temps, normalise_yoda, normalise_negated_if, normalise_small_forms
+            from .inline import expand_keyword_dicts, inline_local_procedures, inline_unknown_functions, inline_unknown_nested, inline_return_temps, normalise_yoda, normalise_negated_if, normalise_small_forms, inline_single_use_temps
             self.fingerprints.update(fingerprints_of(tree, name))          # of the source as written, before any reading-in-place
             inline_return_temps(tree)
+            if os.environ.get('FSA_NO_TEMPS') != '1':
+                inline_single_use_temps(tree)
             normalise_yoda(tree)
             normalise_negated_if(tree)
             normalise_small_forms(tree)
